@@ -2,6 +2,9 @@
 parser calls back into (docs/using-zconfig.rst, statements of C05, C06, C12,
 C16, C18).  PARSED, NEVER EXECUTED."""
 import os.path
+import sys
+import urllib.request
+from io import StringIO
 from urllib.request import pathname2url
 
 import ZConfig
@@ -13,6 +16,7 @@ import ZConfig.url
 from ZConfig.loader import CompositeHandler
 from ZConfig.loader import _url_from_file
 from ZConfig.loader import SchemaLoader
+from ZConfig.loader import _get_config_loader
 
 
 def includeConfiguration(self, section, url, defines):
@@ -105,3 +109,78 @@ def url_from_file(file_or_path):
     if name[-1] == ">":
         return None
     return "file://" + pathname2url(os.path.abspath(name))
+
+
+# --------------------------------------------------------------------------
+# The public load functions: a new loader per call, then the loader's own
+# entry point with the arguments as given.
+
+def loadSchema(url):
+    return SchemaLoader().loadURL(url)
+
+
+def loadSchemaFile(file, url=None):
+    return SchemaLoader().loadFile(file, url)
+
+
+def loadConfig(schema, url, overrides=()):
+    return _get_config_loader(schema, overrides).loadURL(url)
+
+
+def loadConfigFile(schema, file, url=None, overrides=()):
+    return _get_config_loader(schema, overrides).loadFile(file, url)
+
+
+# package:<name>:<path> resources.  Anything wrong with the package or the
+# file inside it is a schema-resource error carrying the file name and the
+# package; a package without a PEP 302 loader is searched along its __path__
+# and opened through a normalised file: URL; with a loader, the data of the
+# first directory that has it, decoded as UTF-8 -- the last failure is
+# reported when no directory has it.
+
+def openPackageResource(package, path):
+    try:
+        __import__(package)
+    except (ImportError, ValueError) as e:
+        raise ZConfig.SchemaResourceError(
+            "could not load package", filename=path, package=package)
+    pkg = sys.modules[package]
+    if not hasattr(pkg, "__path__"):
+        raise ZConfig.SchemaResourceError(
+            "import name does not refer to a package",
+            filename=path, package=package)
+    try:
+        loader = pkg.__loader__
+    except AttributeError:
+        relpath = os.path.join(*path.split("/"))
+        for dirname in pkg.__path__:
+            filename = os.path.join(dirname, relpath)
+            if os.path.exists(filename):
+                break
+        else:
+            raise ZConfig.SchemaResourceError("schema component not found",
+                                              filename=path,
+                                              package=package,
+                                              path=pkg.__path__)
+        url = "file:" + pathname2url(filename)
+        url = ZConfig.url.urlnormalize(url)
+        return urllib.parse.urlopen(url)
+    else:
+        v, tb = (None, None)
+        for dirname in pkg.__path__:
+            loadpath = os.path.join(dirname, path)
+            try:
+                return StringIO(loader.get_data(loadpath).decode('utf-8'))
+            except Exception as e:
+                v = ZConfig.SchemaResourceError(
+                    "error opening schema component", filename=path,
+                    package=package, path=pkg.__path__)
+                tb = sys.exc_info()[2]
+        if v is not None:
+            try:
+                raise v.with_traceback(tb)
+            finally:
+                del tb
+        raise ZConfig.SchemaResourceError("schema component not found",
+                                          filename=path, package=package,
+                                          path=pkg.__path__)
